@@ -24,6 +24,7 @@ import Hy.Drv.Ring
 import Hy.Drv.Bbr
 import Hy.Drv.C18
 import Hy.Drv.C18Mux
+import Hy.Drv.C18Mgr
 import Hy.Drv.Relay
 import Hy.Drv.Auth
 import Hy.Drv.Masq
@@ -73,7 +74,10 @@ def main (args : List String) : IO UInt32 := do
   | ["bbr"] => loopState stdin stdout Bbr.step Bbr.init; return 0
   | ["pnq"] => loopState stdin stdout Ring.pnqStep Ring.pnqInit; return 0
   | ["c18"] => loopPure stdin stdout C18.step; return 0
-  | ["c18mux"] => loopPure stdin stdout C18Mux.step; return 0
+  | ["c18mux"] => loopPure stdin stdout (fun line =>
+      match Hy.Drv.fields line with
+      | "mgr" :: toks => C18Mgr.step toks
+      | _ => C18Mux.step line); return 0
   | ["relay"] => loopPure stdin stdout Relay.step; return 0
   | ["auth"] => loopPure stdin stdout Auth.step; return 0
   | ["masq"] => loopState stdin stdout Masq.step Masq.init; return 0
